@@ -75,6 +75,8 @@ def pipeline(tier, seed):
                 shutil.copyfileobj(pf, tf)
             os.unlink(part)
     cm = tlc_model("MC_Chain", "MC_Chain_%s.cfg" % tier, env={"VERIF_PROGS": progs_path}, workers=8, timeout=1800, coverage=(tier == "thorough"))
+    # liveness of the chain machine (design level): every transaction that was fired ends (commit or roll back), under fairness
+    tlc_model("MC_Chain", "MC_Chain_live.cfg", env={"VERIF_PROGS": progs_path}, workers=8, timeout=1800, coverage=False)
     return {"chain_trace": chain_trace, "chain_model": cm, "progs": progs, "progs_path": progs_path, "tables_path": tables_path, "trace": trace, "model": m,
             "failed": failed, "wall": time.time() - t0}
 
